@@ -3,6 +3,7 @@ import FluteModel.Lemmas.SessionCodec
 import FluteModel.Lemmas.SessionPart
 import FluteModel.Lemmas.SessionFits
 import FluteModel.Lemmas.SessionCache
+import FluteModel.Props.C01Link
 /-
   C01 — clean channel: every accepted object arrives exactly once (once per transfer when
   receive-once is off), nothing is reported as error; an object the wire format cannot carry is
@@ -119,6 +120,41 @@ theorem clean_channel_exact_once_real (cF cO : Codec) (rc : RxCfg) (s : SessCfg)
   rw [observe_unl cF.canDecode cO.canDecode rc s o hto _ hfit.2.2]
   exact clean_channel_exact_once_session cF cO (unl rc) s o hto hN (fits_unl rc o _ hfit) hnc hw hblocks hm tr trLast h1 h2
     hall f hfind hfN hflook hfresh ps1 ps2 hgenF hwhole hannounce hlife
+
+/-- **`max_transfer_count = 0`** (accepted by the code): the sender makes ONE ordinary transfer - no
+    close-object flag at all (`Src.listing`: `should_transfer_now` once, `is_last_transfer` never) - and the
+    object is delivered exactly once, receive-once on or off.  Receiver as configured. -/
+theorem clean_channel_zero_transfer_count (cF cO : Codec) (rc : RxCfg) (s : SessCfg) (o : ObjCfg)
+    (hto : o.toi ≠ 0) (hN : o.ks.isEmpty = false) (hnc : o.noCache = false) (hw : 1 ≤ s.w)
+    (hblocks : ∀ (b k : Nat), o.ks[b]? = some k → 1 ≤ k ∧ blockFails o.scheme k o.p = false)
+    (tr : List Sym) (h1 : emitTransfer (objEnc s o false) = some tr)
+    (hall : ∀ f, f ∈ s.fdts → f.files.contains o.toi = true)
+    (f : FdtCfg) (hfind : s.fdts.find? (fun x => x.id == f.id) = some f)
+    (hfN : f.ks.isEmpty = false) (hflook : f.ks.size ≤ rc.maxLook)
+    (hfresh : blockDone cF.canDecode f.ks s.fdtP [] 0 = false)
+    (ps1 ps2 : List Pkt)
+    (hfit : FitsBytes rc o (ps1 ++ ps2))
+    (hgenF : ∀ p, p ∈ ps1 → p.toi = 0 → p.fdtId = f.id → Genuine (fdtObj s f) (toSym p) ∧ p.close = false)
+    (hwhole : AllDec cF (fdtObj s f) (fsyms f.id ps1))
+    (hannounce : osyms o ps1 = [])
+    (hlife : osyms o ps2 = tr) :
+    (observe cF.canDecode cO.canDecode rc s o (ps1 ++ ps2)).completes = 1 ∧
+    (observe cF.canDecode cO.canDecode rc s o (ps1 ++ ps2)).opens = 1 ∧
+    (observe cF.canDecode cO.canDecode rc s o (ps1 ++ ps2)).errors = 0 ∧
+    (observe cF.canDecode cO.canDecode rc s o (ps1 ++ ps2)).interrupts = 0 := by
+  rw [observe_unl cF.canDecode cO.canDecode rc s o hto _ hfit.2.2]
+  have key := clean_stream cF cO (unl rc) s o hto hN (fits_unl rc o _ hfit) hnc hall f hfind hfN hflook hfresh ps1 ps2
+    hgenF hwhole hannounce [tr]
+    (by intro T hT; simp only [List.mem_singleton] at hT; subst hT; exact transferOK_of_emit cO s o false hw hN hblocks _ h1)
+    (by simp [hlife])
+  simp only [List.length_singleton, Nat.min_self, ite_self] at key
+  obtain ⟨k1, k2, k3, k4⟩ := key
+  exact ⟨k1, by rw [k2, k1], k3, k4⟩
+
+/-- the fresh source of a `max_transfer_count = 0` object holds exactly that one ordinary transfer -/
+theorem zero_transfer_count_source (k : Slot) (tr trLast : List Sym) :
+    remainingOf { slot := k, tr := tr, trLast := trLast, transfers := 0, carousel := false, t := 0, rest := [] } = tr := by
+  simp [remainingOf]
 
 /-- the scheduler only interleaves: whatever the schedule, the packets of a non-carousel object appear in
     the merged stream in the order its block encoder emits them - a prefix of its `life` -/
@@ -271,5 +307,60 @@ example : TransferOK (codecOf .rs) (k1 false) (pktSyms [.pkt ⟨0, 0, false⟩, 
     | [], h => simp at h; obtain ⟨rfl, _⟩ := h; simp at hs
     | [_], h => simp at h; exact h.2.2
     | _ :: _ :: a', h => simp at h
+
+/-! ### composed with the block-encoder model of C08 (benc)
+
+  The transfers the receiver theorem is about ARE the complete BlockEnc transfers of the object's bytes
+  (`Props/C01Link.lean`, benc): the sender-side hypotheses of `clean_channel_exact_once_real` (`hw`, `hN`,
+  `hblocks`, existence of the two listings) are discharged by the link and the statement reads over `BlockEnc`
+  runs - the model the `benc` correspondence ties to blockencoder.rs. -/
+
+/-- **C01 over BlockEnc.**  For ALL non-empty object bytes `c`, `E, B > 0`, partition `(aL, aS, nL, n)` of the
+    transfer length, parity, interleave window ≥ 1, codec accepting every block (`Accepts`), and a session object
+    `o` whose encoder parameters are linked to them (`Link`, for both values of `is_last_transfer`): there are two
+    packet lists `tr`, `trLast` - the `(SBN, ESI, B)` projections of the COMPLETE unforced BlockEnc transfers of
+    `c` without / with the close-object permission (C08 `Run`s) - such that a clean reception of the object's
+    life (`m - 1` times `tr`, then `trLast`, interleaved with anything, after an FDT instance received whole)
+    opens and completes the writer exactly `m` times (once with receive-once), without `error` / `interrupted`. -/
+theorem clean_channel_exact_once_blockenc {P : BlockEnc.Params} {c : Fec.Bytes} {aL aS nL n : Nat}
+    (hS : BencBlocks.Setup P c aL aS nL n) (hb : 0 < P.b) (hA : BencBlocks.Accepts P c aL aS nL n)
+    (hcov : BencSessionBridge.SrcCover P.codec) (hle : Flute.BencPsi.SymLe P.codec) (hwP : 1 ≤ P.window)
+    (hq : Partition.blockPartitioning P.b P.len P.e = .ok (aL, aS, nL, n))
+    (cF cO : Codec) (rc : RxCfg) (s : SessCfg) (o : ObjCfg)
+    (hLf : BencSessionBridge.Link P aL aS nL n false (objEnc s o false)) (hLt : BencSessionBridge.Link P aL aS nL n true (objEnc s o true))
+    (hto : o.toi ≠ 0) (hnc : o.noCache = false) (hm : 1 ≤ o.transfers)
+    (hall : ∀ f, f ∈ s.fdts → f.files.contains o.toi = true)
+    (f : FdtCfg) (hfind : s.fdts.find? (fun x => x.id == f.id) = some f)
+    (hfN : f.ks.isEmpty = false) (hflook : f.ks.size ≤ rc.maxLook)
+    (hfresh : blockDone cF.canDecode f.ks s.fdtP [] 0 = false) :
+    ∃ tr trLast,
+      (∃ t1 s1, BencShape.Run P c aL aS nL n false t1 s1 ∧ (BlockEnc.read P s1 false).1 = BlockEnc.Out.none ∧ (BencTrace.pkts t1).map BencSessionBridge.sym = tr) ∧
+      (∃ t2 s2, BencShape.Run P c aL aS nL n true t2 s2 ∧ (BlockEnc.read P s2 false).1 = BlockEnc.Out.none ∧ (BencTrace.pkts t2).map BencSessionBridge.sym = trLast) ∧
+      ∀ (ps1 ps2 : List Pkt), FitsBytes rc o (ps1 ++ ps2) →
+        (∀ p, p ∈ ps1 → p.toi = 0 → p.fdtId = f.id → Genuine (fdtObj s f) (toSym p) ∧ p.close = false) →
+        AllDec cF (fdtObj s f) (fsyms f.id ps1) → osyms o ps1 = [] → osyms o ps2 = life tr trLast o.transfers →
+        (observe cF.canDecode cO.canDecode rc s o (ps1 ++ ps2)).completes = (if rc.receiveOnce then 1 else o.transfers) ∧
+        (observe cF.canDecode cO.canDecode rc s o (ps1 ++ ps2)).opens = (observe cF.canDecode cO.canDecode rc s o (ps1 ++ ps2)).completes ∧
+        (observe cF.canDecode cO.canDecode rc s o (ps1 ++ ps2)).errors = 0 ∧
+        (observe cF.canDecode cO.canDecode rc s o (ps1 ++ ps2)).interrupts = 0 := by
+  obtain ⟨tr, _, h1, _, _, t1, s1, r1, _, e1, p1⟩ :=
+    Flute.Props.C01.Link.emitTransfer_is_blockenc_transfer hS hb hA hcov hle hwP hLf hq
+  obtain ⟨trLast, _, h2, _, _, t2, s2, r2, _, e2, p2⟩ :=
+    Flute.Props.C01.Link.emitTransfer_is_blockenc_transfer hS hb hA hcov hle hwP hLt hq
+  have hok := BencSessionBridge.encOK_of_link hS hwP hLf
+  have hw : 1 ≤ s.w := hok.w
+  have hN : o.ks.isEmpty = false := by
+    have h0 : 0 < o.ks.size := hok.nonempty
+    cases hE : o.ks.isEmpty with
+    | false => rfl
+    | true =>
+      have := Array.isEmpty_iff_size_eq_zero.mp hE
+      omega
+  have hblocks : ∀ (b k : Nat), o.ks[b]? = some k → 1 ≤ k ∧ blockFails o.scheme k o.p = false := hok.blocks
+  refine ⟨tr, trLast, ⟨t1, s1, r1, e1, p1⟩, ⟨t2, s2, r2, e2, p2⟩, ?_⟩
+  intro ps1 ps2 hfit hgenF hwhole hann hlife
+  exact clean_channel_exact_once_real cF cO rc s o hto hN hnc hw hblocks hm tr trLast h1 h2 hall f hfind hfN hflook hfresh
+    ps1 ps2 hfit hgenF hwhole hann hlife
+
 
 end Flute.Props.C01
